@@ -216,6 +216,10 @@ def run(ctx):
     from rules.c04 import boot_vacuum_always
     boot_vacuum_always(ctx, prog, 'C03-R8')
 
+    # what replay reads from disk is decoded completely (after seed C03-e): = C15-R8 on the storage engine
+    from rules.c15 import decode_errors_examined
+    decode_errors_examined(ctx, prog, 'C03-R9', re.compile(r'^<?storage::secondary::'), 2)
+
 
 def commit_publishes_rule(ctx, prog, rid):
     """shared by C03 and C05: a commit that returns Ok has published everything the transaction wrote"""
